@@ -1,8 +1,8 @@
 package main
 
 import (
-	"github.com/zenon-network/go-zenon/vm/constants"
 	"fmt"
+	"github.com/zenon-network/go-zenon/vm/constants"
 	"os"
 
 	"verifmc/internal/ops"
